@@ -12,6 +12,10 @@ ENGINES = [
 NOTES = "All checks: ./check <ID> --tier quick|thorough; exit 0 held / 1 VIOLATION (replayed on the unmodified code) / 3 inconclusive or harness error. float64 is modelled as exact reals everywhere; bounds per harness are written into the evidence files. See DESIGN.md."
 _REAL = "float64 modelled as exact reals; shapes bounded as listed in evidence (harnesses[].bounds); trusted: z3, numpy object-array plumbing, vf.symnp kernels (differentially tested against numpy on every run)."
 CHECKS = {
+    "C01": dict(level="other", ref="DESIGN.md 4/C01",
+        text="Chain of bounded symbolic lemmas over the real code: L1 AngularTree.count post-processing (limits, fine log grid, cumulative/per-bin dispatch, power-law weights, summation per scale) over a specification KD-tree with pair chords, weights, limits and exponent symbolic; L2a get_max_angle >= the angle used in every bin for an arbitrary increasing distance function; L2b from_catalogs never prunes a patch pair containing two objects closer than the pruning angle (centres/radii of all catalogs symbolic); L3 every linked pair visited once for every link relation; L4 process_patch_pair / count_pairs route bins, angles, halving and weight sums to the right cells.",
+        note=_REAL + " scipy KDTree replaced by the documented count_neighbors contract (SpecTree); log10/10**x/x**a/sin/D_C(z) are uninterpreted functions with monotonicity / inverse axioms; linkage geometry restricted to a great circle; the whole-pipeline composition (L5) and KD-tree traversal are not covered.",
+        technique="symbolic execution of real numpy code on object arrays of z3 reals with axiomatised uninterpreted functions + SMT discharge per path"),
     "C03": dict(level="other", ref="DESIGN.md 4/C03",
         text="Bounded symbolic proof over the real resampling code: for every real-valued content of the pair-count / weight / histogram arrays at the stated small shapes, z3 shows each jackknife sample equals the leave-patch-k-out statistic, the covariance equals the delete-one formula, is symmetric and PSD (sum-of-squares certificate), error^2 = diag. Counterexamples are replayed on the unmodified code before being reported.",
         note=_REAL + " Division-by-zero inputs excluded (side conditions). Worker arrival order is C05's subject.",
@@ -30,4 +34,4 @@ CHECKS = {
         technique="symbolic execution of real numpy code on object arrays of z3 reals (forking comparisons) + SMT discharge per path"),
 }
 NOT_APPLICABLE = [dict(property_id=p, reason="check not built yet in this session (work in progress; see DESIGN.md section 8 build order)") for p in
-    ["C01","C02","C05","C06","C07","C08","C09","C11","C12","C13","C14","C15","C16","C18"]]
+    ["C02","C05","C06","C07","C08","C09","C11","C12","C13","C14","C15","C16","C18"]]
